@@ -92,6 +92,13 @@ func runC15(p *Prog, r *Report) {
 	c15Supplier(p, r)
 	c15WriterTruncates(p, r)
 	c15ParseAsGiven(p, r, "D3-reference")
+	// the CycloneDX export writes the URL of every package that has one (shared with C14 D4)
+	if fn := p.Func("converter", "ToCDX"); fn != nil {
+		frozenSkips(p, r, "D4-omissions", "converter.ToCDX:url-always-written", fn, storesField("Component", "PackageURL"), c14CDXURLSkips, "CDXURL",
+			"a component can be written without its package URL although the package has one (e.g. when the URL's version is empty): the importer drops such a component, so the URL is lost in the round trip")
+	}
+	r.Rule("D7-record-by-record", "a converter's loop builds each output record from its own input record only")
+	noCarriedRecordState(p, r, "D7-record-by-record", "converter")
 	r.Rule("D6-writers-history-free", "what a writer or converter produces depends on the document it is given only: no process-wide mutable state")
 	var wr []*ssa.Function
 	for _, fn := range p.FuncsIn("binary/cdx", "binary/spdx", "converter") {
